@@ -27,6 +27,7 @@ import Driver.Suites.Wscap
 import Driver.Suites.Bucket
 import Driver.Suites.Sem
 import Driver.Suites.WsRange
+import Driver.Suites.MoveCrash
 import Driver.Suites.Codec
 import Driver.Suites.Reader
 import Driver.Suites.Geometry
@@ -76,6 +77,7 @@ def registry : List Suite := [
   Suites.Bucket.suite,
   Suites.Sem.suite,
   Suites.WsRange.suite,
+  Suites.MoveCrash.suite,
   Suites.Codec.suite,
   Suites.Reader.suite,
   Suites.Geometry.suite,
